@@ -34,7 +34,7 @@ def alphabet_k(world, h):
 def plan(tier):
     W = worlds.curated()
     if tier == "quick":
-        names = ["dynamic", "dovar", "default", "csum-deep", "csum-two-b", "csum-toggle", "csum-fan", "fan3", "diamond", "ifcreate", "always", "diamond-csum", "autodir", "tolerant", "tolerant-csum", "linkdir"]
+        names = ["dynamic", "dovar", "default", "csum-deep", "csum-two-b", "csum-toggle", "csum-fan", "fan3", "diamond", "ifcreate", "always", "diamond-csum", "autodir", "tolerant", "tolerant-csum", "linkdir", "shared-src"]
         K = ["dynamic", "chain"]
         from .c17 import alphabet_u, world_u
         # hand edits of generated files: the dependents react once to each edit, not for ever
